@@ -5,7 +5,7 @@
    Regime N3 (DESIGN 2.4): real-number semantics; floating-point rounding is not verified. *)
 From Coq Require Import ZArith.
 From mathcomp Require Import all_ssreflect all_algebra.
-From DV Require Import Model.C14_exec Proofs.C14_RankOne Proofs.C14_Elitist Proofs.C14_Active Proofs.C14_MO Proofs.C14_Refine.
+From DV Require Import Model.C14_exec Proofs.C14_RankOne Proofs.C14_Elitist Proofs.C14_Active Proofs.C14_MO Proofs.C14_Refine Proofs.C14_PlainSPD.
 Import Order.TTheory GRing.Theory Num.Theory.
 Set Implicit Arguments. Unset Strict Implicit. Unset Printing Implicit Defensive.
 Local Open Scope ring_scope.
@@ -320,6 +320,33 @@ Theorem C14_mo_psucc_in_01_sigma_pos :
   all (@in01 R) (ms_psucc st') /\ all (@pos R) (ms_sigmas st').
 Proof. move=> R e r ep P st ch nc cp; exact: mo_update_core_ranges. Qed.
 Print Assumptions C14_mo_psucc_in_01_sigma_pos.
+
+(* plain (1+lambda): under the success rule the covariance stays symmetric positive definite, it is
+   the old one times a positive factor plus a non-negative multiple of pc pc^T, and — given the
+   contract of the Cholesky routine (oracle hypothesis chol_contract: on a symmetric positive
+   definite C it returns A with A A^T = C) — the sampling factor satisfies A A^T = C after every
+   update of every history *)
+Theorem C14_plain_C_stays_spd :
+  forall (R : rcfType) (exp_ round_ : R -> R) (n : nat) (P : pparams (T:=R)),
+  0 < pp_ccov P < 1 -> 0 <= pp_cc P <= 1 ->
+  forall st pop st' sorted,
+  plain_update (ROps exp_ round_) P st pop = Some (st', sorted) ->
+  wf_ps n st -> all (fun ind : pind (T:=R) => wfv n ind.1) pop ->
+  wf_ps n st' /\
+  exists (a b : R) (p : 'cV[R]_n), [/\ 0 < a, 0 <= b &
+     mx_of n (ps_C st') = a *: mx_of n (ps_C st) + b *: (p *m p^T)].
+Proof. move=> R e r n P c1 c2 st pop st' sorted; exact: plain_update_spd. Qed.
+Print Assumptions C14_plain_C_stays_spd.
+
+Theorem C14_plain_A_is_cholesky_factor :
+  forall (R : rcfType) (exp_ round_ : R -> R) (n : nat) (P : pparams (T:=R)),
+  0 < pp_ccov P < 1 -> 0 <= pp_cc P <= 1 ->
+  forall (evalf : seq R -> seq R) st0 draws log st log',
+  chol_contract exp_ round_ n ->
+  plain_run (ROps exp_ round_) P evalf st0 draws log = Some (st, log') ->
+  factor_inv n st0 -> factor_inv n st.
+Proof. move=> R e r n P c1 c2 evalf st0 draws log st log'; exact: plain_history_factor. Qed.
+Print Assumptions C14_plain_A_is_cholesky_factor.
 
 (* ========================================================================================= *)
 (* the factor updates OF THE EXECUTABLE MODEL (lists of rows read as n x n matrices by mx_of)    *)
